@@ -154,7 +154,7 @@ macro_rules! c16_arm {
 /// @harness id=c16_cyc_self_loop props=C16,C12 tier=quick unwind=17 mem=10 cap=3000 term=1 unwindset=find_inner:3
 /// one fixture `f(f)` with no parent anywhere: a genuine self-cycle, must be reported as f -> f.
 c16_arm!(c16_cyc_self_loop, { let mut w = World::new(&[C0]); d(&mut w, C0, "f", &["f"]); cycles_arm(w, false) });
-/// @harness id=c16_cyc_two_cycle props=C16,C12 tier=thorough unwind=17 mem=12 cap=1800 term=1 unwindset=find_inner:3
+/// @harness id=c16_cyc_two_cycle props=C16,C12 tier=thorough unwind=17 mem=12 cap=900 term=1 unwindset=find_inner:3
 /// C0: f(g), C1: g(f): a 2-cycle across files.
 c16_arm!(c16_cyc_two_cycle, { let mut w = World::new(&[C0, C1]); d(&mut w, C0, "f", &["g"]); d(&mut w, C1, "g", &["f"]); cycles_arm(w, false) });
 /// @harness id=c16_cyc_override_parent_first props=C16,C08 tier=quick unwind=17 mem=12 cap=1800 unwindset=find_inner:3
@@ -163,14 +163,14 @@ c16_arm!(c16_cyc_override_parent_first, { let mut w = World::new(&[C0, C1]); d(&
 /// @harness id=c16_cyc_override_child_first props=C16,C08 tier=quick unwind=17 mem=12 cap=1800 unwindset=find_inner:3
 /// documented override, child conftest registered first: still not a cycle.
 c16_arm!(c16_cyc_override_child_first, { let mut w = World::new(&[C1, C0]); d(&mut w, C1, "f", &["f"]); d(&mut w, C0, "f", &[]); cycles_arm(w, true) });
-/// @harness id=c16_cyc_branch_then_back_edge props=C16,C12 tier=thorough unwind=17 mem=14 cap=2400 term=1 unwindset=find_inner:3
+/// @harness id=c16_cyc_branch_then_back_edge props=C16,C12 tier=thorough unwind=17 mem=14 cap=900 term=1 unwindset=find_inner:3
 /// f(h, g), g(f), h(): the fixture closing the cycle lists a finished sibling branch before the back edge.
 c16_arm!(c16_cyc_branch_then_back_edge, { let mut w = World::new(&[C0]); d(&mut w, C0, "f", &["h", "g"]); d(&mut w, C0, "g", &["f"]); d(&mut w, C0, "h", &[]); cycles_arm(w, false) });
-/// @harness id=c16_cyc_branch_concrete props=C16,C12 tier=thorough unwind=17 mem=10 cap=3000 term=1
+/// @harness id=c16_cyc_branch_concrete props=C16,C12 tier=thorough unwind=17 mem=10 cap=900 term=1
 /// f(h, g), g(f), h() in one conftest, lines and scopes concrete (the verdict depends on neither): the cycle f <-> g is
 /// reported and every reported path is a real closed chain (h is not on it).
 c16_arm!(c16_cyc_branch_concrete, { let mut w = World::new(&[C0]); dc(&mut w, C0, "f", &["h", "g"]); dc(&mut w, C0, "g", &["f"]); dc(&mut w, C0, "h", &[]); cycles_arm(w, false) });
-/// @harness id=c16_cyc_two_cycle_concrete props=C16,C12 tier=thorough unwind=17 mem=10 cap=3000 term=1
+/// @harness id=c16_cyc_two_cycle_concrete props=C16,C12 tier=thorough unwind=17 mem=10 cap=900 term=1
 /// C0: f(g), C1: g(f), lines and scopes concrete: the 2-cycle across files is reported.
 c16_arm!(c16_cyc_two_cycle_concrete, { let mut w = World::new(&[C0, C1]); dc(&mut w, C0, "f", &["g"]); dc(&mut w, C1, "g", &["f"]); cycles_arm(w, false) });
 /// @harness id=c16_cyc_unknown_dep props=C16 tier=quick unwind=17 mem=10 cap=1500 unwindset=find_inner:3
@@ -192,3 +192,25 @@ c16_arm!(c16_scope_override_parent_first, { let mut w = World::new(&[C0, C1]); d
 /// @harness id=c16_scope_sibling_unrelated props=C16,C08 tier=thorough unwind=17 mem=12 cap=1500 unwindset=find_inner:3
 /// an unrelated same-named f in the sibling conftest S registered first; C0: f, g(f): S must not matter.
 c16_arm!(c16_scope_sibling_unrelated, { let mut w = World::new(&[S, C0]); ds(&mut w, S, "f", &[]); ds(&mut w, C0, "f", &[]); ds(&mut w, C0, "g", &["f"]); scope_arm(w, C0, true) });
+
+// ---- lean scope arms: concrete lines AND scopes (one execution of the real analysis per harness); the symbolic-scope
+// arms above exceed 12 GB on the current tree (each dependency is now resolved through the path-walking lookup)
+fn dsc(w: &mut World, file: u8, name: &'static str, deps: &[&'static str], scope: FixtureScope) -> usize {
+    let i = dc(w, file, name, deps);
+    w.defs[i].scope = scope;
+    i
+}
+/// @harness id=c16_lean_scope_mismatch props=C16 tier=quick unwind=17 mem=10 cap=1500
+/// C0: f (function scope), g(f) session-scoped: exactly one warning, on (g, f).
+c16_arm!(c16_lean_scope_mismatch, { let mut w = World::new(&[C0]); dsc(&mut w, C0, "f", &[], FixtureScope::Function); dsc(&mut w, C0, "g", &["f"], FixtureScope::Session); scope_arm(w, C0, false) });
+/// @harness id=c16_lean_scope_ok props=C16 tier=thorough unwind=17 mem=10 cap=1500
+/// C0: f (session), g(f) function-scoped: no warning.
+c16_arm!(c16_lean_scope_ok, { let mut w = World::new(&[C0]); dsc(&mut w, C0, "f", &[], FixtureScope::Session); dsc(&mut w, C0, "g", &["f"], FixtureScope::Function); scope_arm(w, C0, false) });
+/// @harness id=c16_lean_scope_nearest_definition_decides props=C16,C08 tier=quick unwind=17 mem=10 cap=1500
+/// f session-scoped in the root conftest (registered FIRST), function-scoped in /a/conftest.py; /a/t_u.py: module-scoped
+/// g(f): pytest injects the nearer, function-scoped f — exactly one warning, naming C1's f (the case repaired by 4e1ca75).
+c16_arm!(c16_lean_scope_nearest_definition_decides, { let mut w = World::new(&[C0, C1, U]); dsc(&mut w, C0, "f", &[], FixtureScope::Session); dsc(&mut w, C1, "f", &[], FixtureScope::Function); dsc(&mut w, U, "g", &["f"], FixtureScope::Module); scope_arm(w, U, false) });
+/// @harness id=c16_lean_scope_override_broader_than_parent props=C16 tier=quick unwind=17 mem=10 cap=1500
+/// override C1 `f(f)` class-scoped over the function-scoped parent in C0 (parent registered first): the override's own
+/// parameter denotes the PARENT — one warning on (C1.f, C0.f).
+c16_arm!(c16_lean_scope_override_broader_than_parent, { let mut w = World::new(&[C0, C1]); dsc(&mut w, C0, "f", &[], FixtureScope::Function); dsc(&mut w, C1, "f", &["f"], FixtureScope::Class); scope_arm(w, C1, false) });
